@@ -70,15 +70,20 @@ def oracle(ctx, seeds=None):
                 F = np.full(n, float(rng.choice([1.5, -1.5, 2.5, -2.5, 0.5, -0.5])))
             else:
                 h = np.full(n, 1.0); F = np.where(np.arange(n) < n // 2, 1.0, -1.0) * rng.uniform(0.5, 3) * float(rng.choice([1, -1]))
+            if i % 8 == 1:
+                h = h * 2.0 ** -40      # "any admissible h > 0": depths far below any absolute dry-bed constant (the model has no length scale)
             W = [h, F * np.sqrt(gg * h)]
             name = 'sw/' + flux
         b = {'type': bc}
         disc = impl.modeldisc.fvm(mod, msh, impl.xnum.extrapol1(), numflux=flux, bcL=b, bcR=b)
         nsteps = int(rng.integers(5, 40))
-        rp = dict(model=name, bc=bc, integrator=integ, cfl=cfl, prim=[list(map(float, w)) for w in W], gamma=g if euler else None, g=None if euler else gg, nsteps=nsteps)
+        rp = dict(model=name, bc=bc, integrator=integ, cfl=cfl, earlier_dtlocal_call=(i % 3 == 1), prim=[list(map(float, w)) for w in W], gamma=g if euler else None, g=None if euler else gg, nsteps=nsteps)
         def run():
             f = disc.fdata_fromprim([np.array(w, dtype=float) for w in W])
             s = getattr(impl.integ, integ)(msh, disc)
+            if i % 3 == 1:
+                # the solver object has a history: an unrelated one-iteration call with the local-time-step directive (result discarded)
+                s.solve(f.copy(), cfl, stop={'maxit': 1}, directives={'dtlocal': True})
             worst = None
             for k in range(nsteps):
                 f = s.solve(f, cfl, stop={'maxit': 1})[-1]
